@@ -80,13 +80,26 @@ def session_members(sid: int):
 
 def run_session(argv, cwd, env, root: Path, tag: str, timeout=30.0, survivors_timeout=15.0):
     """Run argv in a new session; wait for the leader, then until no process of the session is left.
-    Output goes to files (survivors may keep the descriptors open).  Returns a dict."""
-    outp = Path(root) / f"out.{tag}"
-    errp = Path(root) / f"err.{tag}"
+    stdout/stderr are pipes (writes to them are not state changes and must not count as crash points),
+    drained by threads because survivors may keep them open after the leader died.  Returns a dict."""
     t0 = time.time()
-    with open(outp, "wb") as fo, open(errp, "wb") as fe:
-        p = subprocess.Popen(argv, cwd=str(cwd), env=env, stdin=subprocess.DEVNULL, stdout=fo, stderr=fe,
-                             start_new_session=True)
+    p = subprocess.Popen(argv, cwd=str(cwd), env=env, stdin=subprocess.DEVNULL, stdout=subprocess.PIPE,
+                         stderr=subprocess.PIPE, start_new_session=True)
+    bufs = {"out": [], "err": []}
+
+    def drain(f, key):
+        try:
+            while True:
+                d = f.read1(65536)
+                if not d:
+                    break
+                bufs[key].append(d)
+        except (OSError, ValueError):
+            pass
+    ths = [threading.Thread(target=drain, args=(p.stdout, "out"), daemon=True),
+           threading.Thread(target=drain, args=(p.stderr, "err"), daemon=True)]
+    for t in ths:
+        t.start()
     sid = p.pid
     watchdog = False
     try:
@@ -118,8 +131,12 @@ def run_session(argv, cwd, env, root: Path, tag: str, timeout=30.0, survivors_ti
             deadline = time.time() + 5
         time.sleep(delay)
         delay = min(delay * 2, 0.05)
-    return {"rc": rc, "watchdog": watchdog, "out": outp.read_text(errors="replace"),
-            "err": errp.read_text(errors="replace"), "had_survivors": had_survivors,
+    for t in ths:
+        t.join(timeout=5)
+    p.stdout.close()
+    p.stderr.close()
+    return {"rc": rc, "watchdog": watchdog, "out": b"".join(bufs["out"]).decode("utf-8", "replace"),
+            "err": b"".join(bufs["err"]).decode("utf-8", "replace"), "had_survivors": had_survivors,
             "survivors_hung": survivors_hung, "t_leader": round(t_leader, 3), "t_all": round(time.time() - t0, 3)}
 
 
@@ -290,6 +307,19 @@ def crash_points(calls, root, targets=(), sources=()):
                 while e < n and seq[e][0] == "write" and seq[e][1] == "db-wal":
                     e += 1
                 commit_end[r] = e - 1 if e > j else n - 1   # last wal write of that run (0-based)
+        # database creation: unlink(db) (only issued when db.sqlite3 did not exist) then open(db) creates the file;
+        # the schema is committed by the first maximal run of wal writes after that
+        create_open = create_end = None
+        for o in range(1, n):
+            if seq[o][0] == "open" and seq[o][1] == "db" and seq[o - 1][0] == "unlink" and seq[o - 1][1] == "db":
+                j = o + 1
+                while j < n and not (seq[j][0] == "write" and seq[j][1] == "db-wal"):
+                    j += 1
+                e = j
+                while e < n and seq[e][0] == "write" and seq[e][1] == "db-wal":
+                    e += 1
+                create_open, create_end = o, (e - 1 if e > j else n - 1)
+                break
         for k in range(1, n + 1):
             i = k - 1
             prev = None
@@ -304,7 +334,9 @@ def crash_points(calls, root, targets=(), sources=()):
                     break
             a = "start" if prev is None else label(prev)
             b = "exit" if nxt is None else label(nxt)
-            if prev is not None and prev in commit_end:
+            if create_open is not None and create_open < i <= create_end:
+                window = "after create(db) before schema commit"
+            elif prev is not None and prev in commit_end:
                 if i <= commit_end[prev]:
                     window = "after rename(tmp->target) before commit"
                 else:
@@ -459,16 +491,27 @@ def selftest(world_name="chain"):
            "link": "link", "linkat": "link", "symlink": "link", "symlinkat": "link"}
     sys_by_pid = {}
     rx = re.compile(r"^(\d+)\s+(\w+)\((.*)$")
+    rx_res = re.compile(r"^(\d+)\s+<\.\.\. (\w+) resumed>(.*)$")
+    pending_exec = {}
     shimfiles = (str(log), str(procs))
     for line in st.read_text(errors="replace").split("\n"):
+        m = rx_res.match(line)
+        if m and m.group(2) == "execve" and m.group(3).rstrip().endswith("= 0") and int(m.group(1)) in pending_exec:
+            pid = int(m.group(1))
+            exe = pending_exec.pop(pid)
+            (redo_pids.add if os.path.basename(os.path.realpath(exe)).startswith("redo") else redo_pids.discard)(pid)
+            continue
         m = rx.match(line)
         if not m:
             continue
         pid, name, rest = int(m.group(1)), m.group(2).replace("64", ""), m.group(3)
-        if name == "execve" and rest.rstrip().endswith("= 0"):
+        if name == "execve":
             # the same pid is a redo process before exec'ing a script interpreter and something else after
             exe = rest.split('"')[1] if '"' in rest else ""
-            (redo_pids.add if os.path.basename(os.path.realpath(exe)).startswith("redo") else redo_pids.discard)(pid)
+            if rest.rstrip().endswith("<unfinished ...>"):
+                pending_exec[pid] = exe
+            elif rest.rstrip().endswith("= 0"):
+                (redo_pids.add if os.path.basename(os.path.realpath(exe)).startswith("redo") else redo_pids.discard)(pid)
             continue
         if pid not in redo_pids or name not in fam:
             continue
